@@ -74,6 +74,13 @@ func vfC03L1(data []byte, c vfC03L1Cfg) (lines []string, timedOut bool) {
 			out = append(out, fmt.Sprintf("e db=%d key=%s t=%d exp=%d idle=%d freq=%d first=%d split=%d dumpsz=%d dump=%s",
 				e.DB, vfutil.Hex(e.Key), e.Type, e.ExpireAt, e.IdleTime, e.Freq, b2i(e.FirstBin()),
 				b2i(e.ObjectParser.IsSplited()), e.ObjectParser.ValueDumpSize(), vfutil.Hex(e.DumpValue())))
+			// a listpack-typed value whose blob is an integer-encoded string: the outcome depends on
+			// the capacity of the byte slice Go built for it (see capDependent in Drive/C03.lean)
+			if dv := e.DumpValue(); (e.Type == 16 || e.Type == 17 || e.Type == 20) && len(dv) > 1 &&
+				(dv[1] == 0xC0 || dv[1] == 0xC1 || dv[1] == 0xC2) {
+				out = append(out, "xcap")
+				continue
+			}
 			var cmds []string
 			ok := func() (ok bool) {
 				defer func() {
